@@ -4,6 +4,7 @@ pub mod c04;
 pub mod c05;
 pub mod c06;
 pub mod c07;
+pub mod c08;
 pub mod c09;
 pub mod c10;
 pub mod c11;
@@ -25,6 +26,7 @@ pub fn by_id(id: &str) -> Option<Box<dyn Property>> {
         "C05" => Some(Box::new(c05::C05)),
         "C06" => Some(Box::new(c06::C06)),
         "C07" => Some(Box::new(c07::C07)),
+        "C08" => Some(Box::new(c08::C08)),
         "C09" => Some(Box::new(c09::C09)),
         "C10" => Some(Box::new(c10::C10)),
         "C11" => Some(Box::new(c11::C11)),
@@ -38,4 +40,4 @@ pub fn by_id(id: &str) -> Option<Box<dyn Property>> {
         _ => None,
     }
 }
-pub const ALL: &[&str] = &["C02", "C03", "C04", "C05", "C06", "C07", "C09", "C10", "C11", "C12", "C13", "C15", "C17", "C18", "C19", "C20"];
+pub const ALL: &[&str] = &["C02", "C03", "C04", "C05", "C06", "C07", "C08", "C09", "C10", "C11", "C12", "C13", "C15", "C17", "C18", "C19", "C20"];
